@@ -430,6 +430,13 @@ func (lb *LoadBalancer) AddBackend(backendCfg config.BackendConfig) error {
 		return err
 	}
 
+	// Backend names identify backends (removal, health counters, metrics): they must be unique
+	for _, existing := range lb.strategy.GetBackends() {
+		if existing.Name == backendCfg.Name {
+			return fmt.Errorf("backend %q already exists", backendCfg.Name)
+		}
+	}
+
 	// Create a reverse proxy for this backend with optimized transport
 	proxy := httputil.NewSingleHostReverseProxy(backendURL)
 
